@@ -135,6 +135,11 @@ def tree_tags(T, d):
             out.add('embedded:statement')
         if cn == 'Interval':
             out.add('node:Interval')
+            try:
+                if n.get_string().endswith("'"):
+                    out.add('interval:single-string')      # printed without a separate unit word
+            except Exception:
+                pass
         elif cn in SETOPS:
             if n is not T:
                 out.add('setop:inner')
